@@ -18,7 +18,8 @@ def parseCfg (j : Json) : Except String Cfg := do
   return { retries := ← getNat c "retries", dieAfter := getBoolD c "dieAfter" false,
            prods := ← (← getArr c "prods").mapM parseProd, pre := ← getNatList c "pre",
            guardNone := getBoolD c "guardNone" true,
-           killOnSuicidePoll := getBoolD c "killOnSuicidePoll" true }
+           killOnSuicidePoll := getBoolD c "killOnSuicidePoll" true,
+           killAfterLaunch := getBoolD c "killAfterLaunch" true }
 
 def parseEv (s : String) : Except String Ev :=
   if s.startsWith "out:" then
